@@ -90,10 +90,36 @@ func zeroAll(n *core.N) {
 
 func genTree(c *core.Ctx) *core.N {
 	n, _ := c.G.Tree(opts(c.G))
-	if c.G.Chance(0.06) {
+	switch r := c.G.Intn(100); {
+	case r < 6:
 		n = tipRooted(c, n)
+	case r < 12:
+		n = tipChildRooted(c, n, true)
+	case r < 18:
+		n = tipChildRooted(c, n, false)
 	}
 	return n
+}
+
+// tipChildRooted makes a rooted tree whose first (or second) root child is a tip: a new
+// bifurcating root above the generated tree and a new tip.
+func tipChildRooted(c *core.Ctx, n *core.N, first bool) *core.N {
+	o := opts(c.G)
+	n.E = core.NewE()
+	n.E.Len = c.G.Length(&o)
+	if len(n.Kids) > 0 && n.Name == "" {
+		n.E.Sup = c.G.Support(&o)
+	}
+	n.PPos = 0
+	if c.G.Chance(0.3) {
+		n.PPos = len(n.Kids)
+	}
+	tip := &core.N{Name: "tx", E: core.NewE()}
+	tip.E.Len = c.G.Length(&o)
+	if first {
+		return &core.N{Kids: []*core.N{tip, n}}
+	}
+	return &core.N{Kids: []*core.N{n, tip}}
 }
 
 // tipRooted hangs the tree below a new root that is itself a tip (a root with a single
@@ -140,6 +166,14 @@ func rootedTree(c *core.Ctx) *core.N {
 		o.Rooted = 1
 	}
 	n, _ := c.G.Tree(o)
+	switch r := c.G.Intn(100); {
+	case r < 20:
+		n = tipChildRooted(c, n, true)
+	case r < 35:
+		n = tipChildRooted(c, n, false)
+	case r < 42:
+		n = tipRooted(c, n)
+	}
 	return n
 }
 
